@@ -13,12 +13,11 @@ structure Resp where
   rawHeaders : Headers       -- as parsed
   coding : Coding            -- decoder selected by CompressedReader::new
   body : Body
-  deriving Repr
 
 /-- `parse_response` (uncompressed). `cap` = BufReader capacity. -/
 def parseResponse (m : Method) (maxHeaders cap : Nat) (t : Transport) : RR Resp :=
   let r0 : BufR := { buf := [], cap := cap, inner := t }
-  match parseResponseHead r0 maxHeaders with
+  match parseResponseHead bufSrc r0 maxHeaders with
   | (.ok (status, hs), r1) =>
     (match chooseFraming m status hs with
      | .error e => .err e
